@@ -150,6 +150,9 @@ BoolRuns == {TTup([j \in 1..m |-> TBool]) : m \in {7, 8, 9, 16, 17}}
 Level1 == BaseTypes \cup Arrays(BaseTypes, {1, 2, 3, 8, 9}) \cup Tuples(SmallBase, 3) \cup BoolRuns
 Inner == {TTup(<<TU(8), TStr>>), TTup(<<TBool, TBool>>), TSA(TU(16), 2), TDA(TStr), TSA(TBool, 9), TDA(TBool), TTup(<<TStr, TStr>>), TTup(<<TU(64)>>)}
 Strings == {TStr, TTup(<<TU(8), TStr>>), TTup(<<TStr, TBool, TStr>>)}
+\* elements that start at byte 256 or later / are exactly 255, 256 bytes long (one-byte immediates of extract / substring)
+Wide == {TTup(<<TSA(TByte, 300), TTup(<<TU(16), TU(8), TU(64)>>)>>), TTup(<<TU(16), TSA(TU(64), 32), TU(8)>>),
+         TTup(<<TSA(TByte, 256), TSA(TU(8), 2)>>), TTup(<<TSA(TByte, 255), TAddr>>), TTup(<<TSA(TByte, 254), TU(16), TSA(TU(16), 3)>>)}
 Level2 == Arrays(Inner, {1, 2, 3}) \cup Tuples(Inner \cup {TU(8), TStr, TBool}, 2)
           \cup {TTup(<<a, TU(8), b>>) : a \in Inner, b \in {TDA(TStr), TSA(TBool, 9)}}
 =============================================================================
